@@ -443,8 +443,8 @@ def default_tolerance_decisions(tree):
         for c in _own(fn):
             if not (isinstance(c, ast.Call) and (dotted(c.func) or "").split(".")[-1] in ("isclose", "allclose") and len(c.args) >= 2):
                 continue
-            if len(c.args) > 2 or any(k.arg in ("rtol", "atol", "rel_tol", "abs_tol") for k in c.keywords):
-                continue
+            if len(c.args) > 2 or any(k.arg in ("rtol", "atol", "rel_tol", "abs_tol") or k.arg is None for k in c.keywords) or any(isinstance(a, ast.Starred) for a in c.args):
+                continue            # tolerances given (also through *args / **mapping)
             found.append((c.lineno, "P7", fn.name, f"`{src(c)[:60]}` decides with NumPy's default tolerances (rtol 1e-5, atol 1e-8): whether model data counts as zero / equal then depends on the units it is written in -- "
                           f"values of magnitude 1e-8 vanish and relative differences below 1e-5 are ignored", src(c)[:40]))
     return found
